@@ -476,6 +476,8 @@ class Judge:
         # a cell with a missing slot under a weight function singular at the placeholder distance: one root cause
         if getattr(self, "cell_override", None) and key in ("C04.mask", "C04.mean", "C04.fill", "C04.stddev", "C04.stddev.undefined", "C04.stddev.mask"):
             key = self.cell_override
+        if getattr(self, "layout_broken", False) and key.split(".")[1] in ("mean", "mask", "fill", "stddev", "count"):
+            key = "C04.layout_independence"     # consequences of the layout dependence already reported for this call
         if len(self.fail) < 6:
             self.fail.append((key, what))
 
@@ -557,7 +559,8 @@ class Judge:
             self.bad("C04.error." + o["error"], "the implementation raised %s: %s" % (o["error"], o.get("msg", "")))
             return
         self.check_neighbours()
-        if o.get("same_as_c") is False:
+        self.layout_broken = o.get("same_as_c") is False
+        if self.layout_broken:
             self.bad("C04.layout_independence", "data layout %s / coordinate layout %s: the result differs from the one for the same values in "
                      "C-contiguous arrays (%s)" % (c.get("layout"), c.get("coord_layout"), o.get("layout_diff", "")))
         if o.get("input_mutated"):
